@@ -752,6 +752,8 @@ class QueryBuilder(Selectable, Term):  # type:ignore[misc]
         newone._from = copy(self._from)
         newone._with = copy(self._with)
         newone._selects = copy(self._selects)
+        newone._force_indexes = copy(self._force_indexes)
+        newone._use_indexes = copy(self._use_indexes)
         newone._columns = copy(self._columns)
         newone._values = copy(self._values)
         newone._groupbys = copy(self._groupbys)
@@ -1151,7 +1153,7 @@ class QueryBuilder(Selectable, Term):  # type:ignore[misc]
 
         elif 0 < len(self._groupbys) and isinstance(self._groupbys[-1], Rollup):
             # If a rollup was added last, then append the new terms to the previous rollup
-            self._groupbys[-1].args += terms
+            self._groupbys[-1] = Rollup(*self._groupbys[-1].args, *terms)
 
         else:
             self._groupbys.append(Rollup(*terms))  # type:ignore[arg-type]
